@@ -75,7 +75,7 @@ func obligationQuery(o *Obligation) (string, string) {
 		selectIndexTerms(q, tm)
 		var terms []string
 		for t := range tm {
-			if !strings.Contains(t, "|q!") && len(t) < 200 && o.Gen.S.isIntTerm(t) {
+			if !strings.Contains(t, "|q!") && len(t) < 200 && (o.Gen.S.isIntTerm(t) || strings.HasPrefix(t, "(mk-iface ") || (strings.HasPrefix(t, "|sk!") && strings.Contains(t, "!Iface!"))) {
 				terms = append(terms, t)
 			}
 		}
@@ -90,8 +90,8 @@ func obligationQuery(o *Obligation) (string, string) {
 			}
 			return terms[i] < terms[j]
 		})
-		if len(terms) > 10 {
-			terms = terms[:10]
+		if len(terms) > 12 {
+			terms = terms[:12]
 		}
 		if len(terms) > 0 {
 			budget := 240
